@@ -44,6 +44,9 @@ void HARNESS(void)
 {
   INPUT_ARR(uint8_t, in_a, NMAXN); INPUT(unsigned, in_n); INPUT(uint8_t, in_v);
   __CPROVER_assume(in_n <= 16);
+#ifdef DISPATCH_N
+  __CPROVER_assume(in_n == DISPATCH_N);   /* one job per size: the switch in sort() then selects one network */
+#endif
   uint8_t* buf = malloc(in_n ? in_n : 1); __CPROVER_assume(buf != 0);
   for (unsigned i = 0; i < NMAXN; i++) if (i < in_n) buf[i] = in_a[i];
   __CPROVER_assume(DOMAIN_OK(buf, in_n));
